@@ -297,3 +297,5 @@ def check(run, prog):
         run.rule("R-3.1", "see C03", floor=0)
         run.note(f"R-3.1 could not be evaluated here (decided under C03): {e}")
     rule_counters(run, prog)
+    from .c19_lookback import rule_lookback
+    rule_lookback(run, prog)             # R-19.5
